@@ -498,7 +498,7 @@ def release(conv):
 
 
 def reader_closed(conv):
-    raw = getattr(conv.sr, "_raw", None)
+    raw = getattr(getattr(conv, "sr", None), "_raw", None)
     m = getattr(raw, "_mmap", None)
     if m is not None:
         return bool(m.closed)
@@ -574,7 +574,7 @@ def run_object(root, cfg, exp, opts, calls):
     for c in calls:
         crash = None if c["crash"] < 0 else c["crash"]
         corrupt = None if c["corrupt"] < 0 else c["corrupt"]
-        tform = 1 if conv.ap_file.suffix == ".cbin" else 0
+        tform = 1 if str(getattr(conv, "ap_file", "")).endswith(".cbin") else 0
         S = Sites(root, n, crash, corrupt, exp, tform)
         obs = {"checked": 0, "already": 2, "processed": 0, "closed_before": int(reader_closed(conv)),
                "ever_ok_before": int(ever_ok), "fresh_ok_before": int(fresh_ok),
@@ -856,6 +856,10 @@ def oracle_object(ctx, cfg, opts, calls, obs, pre0, seen):
     kind, fixture, n, w, compressed = CONFIGS[cfg]
     cur_opts = tuple(opts)
     for i, (c, o) in enumerate(zip(calls, obs)):
+        if not o.get("state"):
+            ctx.disagree("the converter object could not even be built / observed: %s" % o.get("exc", ""),
+                         {"cfg": cfg, "object": 1, "opts": list(opts), "calls": calls[:i + 1]}, {"clause": "no_object"})
+            break
         s = st_of(cfg, o)
         case = {"cfg": cfg, "object": 1, "opts": list(opts), "calls": calls[:i + 1]}
         key = json.dumps(case, sort_keys=True)
@@ -998,7 +1002,7 @@ def worker(task):
             mode = task["crash"]
             if mode == "all":
                 pts = list(range(L))
-            elif mode == "none":
+            elif mode == "none" or mode == 0:
                 pts = []
             else:
                 pts = sorted(rng.sample(range(L), min(L, mode)))
@@ -1038,6 +1042,129 @@ def worker(task):
     return cfg, out
 
 
+def reference_job(arg):
+    base, cfg = Path(arg[0]), arg[1]
+    try:
+        exp = build_reference(base, cfg)
+        (base / cfg / "exp.json").write_text(json.dumps(exp))
+        m = measure_sync_copy(base, cfg, exp) if cfg == "np24s4w2" else None
+        return ("ok", m)
+    except AssertionError as e:
+        return ("assert", str(e))
+    except BaseException as e:       # noqa
+        return ("raised", repr(e))
+
+
+def isolated_map(fn, args, timeout, nproc=4):
+    """fn(arg) for every arg, each in its own child process (one single-worker pool per call, a few at a
+    time): [('ok', value) | ('hang', None) | ('died', repr)]"""
+    from concurrent.futures import ThreadPoolExecutor, TimeoutError as FTimeout
+    mpc = multiprocessing.get_context("fork")
+
+    def one(a):
+        ex = ProcessPoolExecutor(max_workers=1, mp_context=mpc)
+        f = ex.submit(fn, a)
+        try:
+            r = ("ok", f.result(timeout=timeout))
+            ex.shutdown()
+            return r
+        except FTimeout:
+            res = ("hang", None)
+        except Exception as e:
+            res = ("died", repr(e))
+        for pr in list(getattr(ex, "_processes", {}).values()):
+            try:
+                pr.kill()
+            except Exception:
+                pass
+        ex.shutdown(wait=False, cancel_futures=True)
+        return res
+    with ThreadPoolExecutor(max_workers=nproc) as tp:
+        return list(tp.map(one, args))
+
+
+def task_desc(task):
+    if "object" in task:
+        return {"cfg": task["cfg"], "object": 1, "opts": list(task["object"][0][0]), "calls": task["object"][0][1],
+                "note": "first of %d call sequences of the task" % len(task["object"])}
+    return {"cfg": task["cfg"], "runs": list(task.get("prefix", [])) + list(task.get("templates", []))[:1]}
+
+
+def safe_worker(task):
+    """worker() never lets an exception escape: an unexpected failure of the machinery on some input is
+    reported as data."""
+    try:
+        return ("ok", worker(task))
+    except BaseException as e:       # noqa: the implementation under test may do anything
+        import traceback
+        return ("error", "%r\n%s" % (e, traceback.format_exc()[-1500:]))
+
+
+def run_tasks(ctx, tasks, nproc=5, timeout=420, retry_timeout=150, max_culprits=2):
+    """Runs the tasks in worker processes.  A worker that raises, is killed by a signal (the
+    implementation segfaults) or hangs does not stop the check: the task is re-run alone to single out
+    the culprit, which is then reported as a disagreement (the implementation did something the model
+    has no outcome for)."""
+    from concurrent.futures import TimeoutError as FTimeout
+    from concurrent.futures.process import BrokenProcessPool
+    mpc = multiprocessing.get_context("fork")
+    results, retry = [], []
+
+    def kill(ex):
+        for pr in list(getattr(ex, "_processes", {}).values()):
+            try:
+                pr.kill()
+            except Exception:
+                pass
+        ex.shutdown(wait=False, cancel_futures=True)
+
+    ex = ProcessPoolExecutor(max_workers=nproc, mp_context=mpc)
+    futs = [(t, ex.submit(safe_worker, t)) for t in tasks]
+    broken = False
+    for t, f in futs:
+        if broken:
+            if f.done() and not f.cancelled() and f.exception() is None:
+                results.append((t, f.result()))
+            else:
+                retry.append(t)
+            continue
+        try:
+            results.append((t, f.result(timeout=timeout)))
+        except (BrokenProcessPool, FTimeout, Exception):
+            broken = True
+            retry.append(t)
+    kill(ex) if broken else ex.shutdown()
+    culprits = 0
+    for k, t in enumerate(retry):   # one process per task: whoever dies now is the culprit
+        if culprits >= max_culprits:
+            ctx.disagree("%d further tasks were not run after %d tasks killed or hung their worker process"
+                         % (len(retry) - k, culprits), task_desc(t), {"clause": "not_run"})
+            break
+        ex1 = ProcessPoolExecutor(max_workers=1, mp_context=mpc)
+        f = ex1.submit(safe_worker, t)
+        try:
+            results.append((t, f.result(timeout=retry_timeout)))
+            ex1.shutdown()
+        except FTimeout:
+            kill(ex1)
+            culprits += 1
+            ctx.disagree("the implementation hangs (no result after %d s) in this task" % retry_timeout, task_desc(t),
+                         {"clause": "hang"})
+        except Exception as e:
+            kill(ex1)
+            culprits += 1
+            ctx.disagree("a worker process died while running this task (%r): the implementation killed the "
+                         "interpreter outside the guarded calls" % (e,), task_desc(t), {"clause": "worker_died"})
+    out = []
+    for t, (tag, val) in results:
+        if tag == "ok":
+            out.append((t, val))
+        else:
+            ctx.disagree("the harness could not run this task on the implementation: %s" % val[:600], task_desc(t),
+                         {"clause": "worker_error"})
+    return out
+
+
 def all_templates(corrupt_n=0):
     t = []
     for ow in (0, 1):
@@ -1064,52 +1191,65 @@ def make_tasks(ctx, base):
     TN = [t for t in T if not t["ow"]]
     full = mkrun(t=-1, post=1, dele=0, comp=1)
     nocomp = mkrun(t=-1, post=1, dele=0, comp=0)
-    fo = 1 if th else 0.35
+    fo = 1 if th else 0.25
+    # quick keeps every class of run (kind, original form, option, interruption site, follow-up) but
+    # samples inside the classes; thorough enumerates.  Budget: quick must stay under 3 min on a machine
+    # that is oversubscribed 4-5x (about 60 s of CPU in total).
     # single-shank NP2.4: every crash point of every option combination, from the fresh directory
-    add("np24s1w3", [], T, "all", fo)
-    add("np24s1w1", [], T if th else rng.sample(T, 4), "all", fo)
+    key = [t for t in T if (t["post"], t["del"], t["comp"], t["ow"]) in
+           ((1, 1, 1, 0), (1, 1, 1, 1), (1, 0, 0, 0), (0, 1, 0, 1))]
+    if th:
+        add("np24s1w3", [], T, "all", fo)
+    else:
+        add("np24s1w3", [], key, "all", fo)
+        add("np24s1w3", [], [t for t in T if t not in key], 3, fo)
+    add("np24s1w1", [], T if th else rng.sample(T, 2), "all", fo)
     # ... and from directories left by earlier runs (stale .cbin, plain .bin, half-compressed, half-prepared)
     for prefix in ([full], [nocomp], [dict(full, crash=13)], [dict(full, crash=1)]):
-        add("np24s1w3", prefix, TO if th else rng.sample(TO, 2), "all" if th else 6, fo)
-        add("np24s1w3", prefix, TN if th else rng.sample(TN, 1), 3, fo)
+        add("np24s1w3", prefix, TO if th else rng.sample(TO, 1), "all" if th else 4, fo)
+        add("np24s1w3", prefix, TN if th else rng.sample(TN, 1), 2, fo)
     # four shanks: sampled crash points (all in thorough); crashes inside _prepare_files always
-    add("np24s4w2", [], T, "all" if th else 3, fo)
-    add("np24s4w2", [], [mkrun(t=-1, post=1, dele=1, comp=1, ow=0)], "all" if th else 12, fo)
-    for c in (2, 4, 7):
-        add("np24s4w2", [dict(full, crash=c)], [mkrun(t=-1, ow=0), mkrun(t=-1, ow=1, dele=1)], 2, fo)
-    add("np24s4w2", [full], rng.sample(TO, 8 if th else 2), "all" if th else 4, fo)
-    add("np24s4w1c", [], T if th else rng.sample(T, 3), "all" if th else 4, fo)
+    add("np24s4w2", [], T if th else rng.sample(T, 6), "all" if th else 2, fo)
+    add("np24s4w2", [], [mkrun(t=-1, post=1, dele=1, comp=1, ow=0)], "all" if th else 7, fo)
+    for c in ((2, 4, 7) if th else (4,)):
+        add("np24s4w2", [dict(full, crash=c)], [mkrun(t=-1, ow=0), mkrun(t=-1, ow=1, dele=1)], 2 if th else 1, fo)
+    add("np24s4w2", [full], rng.sample(TO, 8 if th else 1), "all" if th else 3, fo)
+    add("np24s4w1c", [], T if th else rng.sample(T, 2), "all" if th else 3, fo)
     # damaged shank file before verification
     for cfg, k in (("np24s1w3", 0), ("np24s4w2", 0), ("np24s4w2", 3)):
         add(cfg, [], [mkrun(t=-1, post=1, dele=1, comp=c, ow=o, corrupt=k, cpos=(c + 2 * o + k) % 3)
-                      for c in (0, 1) for o in (0, 1)][:4 if th else 3], "none", 1)
+                      for c in (0, 1) for o in (0, 1)][:4 if th else (3 if cfg == "np24s1w3" else 1)], "none", 1)
     # NP2.1: every crash point, fresh and after earlier runs, plain and pre-compressed original
     # (a follow-up after every interrupted run: interrupted-then-rerun histories, plain and forced)
-    add("np21w2", [], T if th else [t for t in T if t["post"] == t["del"]], "all", 1)
+    add("np21w2", [], T if th else [t for t in T if t["post"] == t["del"] == t["ow"] or
+                                    (t["post"], t["del"], t["comp"], t["ow"]) == (1, 1, 1, 0)], "all", 1 if th else 0.5)
     for prefix in ([mkrun(t=-1, comp=1)], [mkrun(t=-1, comp=0)], [mkrun(t=-1, comp=1, crash=6)],
                    [mkrun(t=-1, comp=1, crash=8)], [mkrun(t=-1, comp=1, crash=9)],
                    [mkrun(t=-1, comp=1, crash=2), mkrun(t=-1, comp=1, ow=1, crash=7)],
                    [mkrun(t=-1, comp=1, crash=11)], [mkrun(t=-1, comp=0, ow=1, crash=1)]):
-        add("np21w2", prefix, [mkrun(t=-1, comp=1, ow=1), mkrun(t=-1, comp=0, ow=1), mkrun(t=-1, comp=1, ow=0)],
-            "all" if th else 4, fo)
+        add("np21w2", prefix, [mkrun(t=-1, comp=1, ow=1), mkrun(t=-1, comp=0, ow=1), mkrun(t=-1, comp=1, ow=0)]
+            if th else [mkrun(t=-1, comp=1, ow=1), mkrun(t=-1, comp=rng.randrange(2), ow=rng.randrange(2))],
+            "all" if th else 2, fo)
     # original given as .cbin (compress_NP21 must leave it alone), fresh and after interrupted runs
-    add("np21w1c", [], [t for t in T if t["post"] == 1 and t["del"] == 0], "all", 1)
-    add("np21w2c", [], [t for t in T if t["post"] == 0 and t["del"] == 1], "all", 1)
+    add("np21w1c", [], [t for t in T if t["post"] == 1 and t["del"] == 0 and (th or t["comp"])], "all", 1 if th else 0.5)
+    add("np21w2c", [], [t for t in T if t["post"] == 0 and t["del"] == 1 and (th or t["comp"])], "all", 1 if th else 0.5)
     for prefix in ([mkrun(t=-1, comp=1, crash=5)], [mkrun(t=-1, comp=1, crash=7)], [mkrun(t=-1, comp=0)]):
-        add("np21w2c", prefix, [mkrun(t=-1, comp=1, ow=1), mkrun(t=-1, comp=1, ow=0)], "all" if th else 3, fo)
-    add("np1w1", [], T if th else rng.sample(T, 4), "none", 1)
+        add("np21w2c", prefix, [mkrun(t=-1, comp=1, ow=1), mkrun(t=-1, comp=1, ow=0)][:2 if th else 1],
+            "all" if th else 2, fo)
+    add("np1w1", [], T if th else rng.sample(T, 2), "none", 1)
     # init_params(nshank=[subset]) / extra=: only some shanks are written; with post_check the comparison
     # with the full-width original must refuse, whatever delete_original / compress say
     for m in ((0b0011, 0b0100, 0b1110, 0b1111) if th else (0b0011, 0b1000, 0b1111)):
-        for (po, de, co) in ((1, 1, 0), (1, 1, 1), (0, 1, 1), (1, 0, 0)):
-            add("np24s4w2", [], [mkrun(t=-1, post=po, dele=de, comp=co, sub=m)], "all" if th else 3, fo)
+        for (po, de, co) in (((1, 1, 0), (1, 1, 1), (0, 1, 1), (1, 0, 0)) if th else
+                             ((1, 1, 0), (1, 1, 1) if m != 0b1000 else (0, 1, 1))):
+            add("np24s4w2", [], [mkrun(t=-1, post=po, dele=de, comp=co, sub=m)], "all" if th else 1, fo)
     add("np24s4w2", [mkrun(t=-1, post=0, dele=0, comp=0, sub=0b0101)],
         [mkrun(t=-1, post=1, dele=1, comp=0, ow=1, sub=0b1010), mkrun(t=-1, post=1, dele=1, comp=1, ow=1, sub=0),
-         mkrun(t=-1, post=1, dele=1, comp=0, ow=0, sub=0b1010)], 2, 1)
+         mkrun(t=-1, post=1, dele=1, comp=0, ow=0, sub=0b1010)], 2 if th else 0, 1)
     add("np24s4w2", [], [mkrun(t=-1, post=1, dele=1, comp=0, sub=0b0110), mkrun(t=-1, post=1, dele=1, comp=1)],
-        2, 1, extra="_x")
+        2 if th else 1, 1, extra="_x")
     add("np24s1w3", [], [mkrun(t=-1, post=1, dele=1, comp=1, sub=0b1), mkrun(t=-1, post=1, dele=0, comp=0)],
-        "all" if th else 4, fo, extra="_run2")
+        "all" if th else 2, fo, extra="_run2")
     tasks += object_tasks(ctx, base)
     return tasks
 
@@ -1139,12 +1279,12 @@ def object_tasks(ctx, base):
            ((1, 0, 0), [P(), O(1, 1, 1), P(ow=1)]), ((0, 0, 1), [P(), O(1, 1, 0), P(ow=1), P()])]
     # an interrupted call followed by a forced / plain retry on the same object
     for o in allo:
-        pts = list(range(26)) if th else sorted(rng.sample(range(26), 5))
+        pts = list(range(26)) if th else sorted(rng.sample(range(26), 2))
         for c in pts:
             s1.append((o, [P(crash=c), P(ow=1)]))
         s1.append((o, [P(), P()]))
         s1.append((o, [P(ow=1, crash=rng.randrange(26)), P(crash=rng.randrange(26)), P(ow=1)]))
-    for _ in range(120 if th else 25):
+    for _ in range(120 if th else 10):
         o = rng.choice(allo)
         calls, dele = [], o[1]
         for _j in range(rng.randrange(2, 5)):
@@ -1168,7 +1308,7 @@ def object_tasks(ctx, base):
     s2 = seqs["np21w2"]
     for o in ((0, 0, 1), (1, 1, 1)):
         s2 += [(o, [P(), P(ow=1)]), (o, [P(), P()]), (o, [P(crash=8), P(ow=1)]), (o, [P(crash=8), P()])]
-        for c in (range(14) if th else sorted(rng.sample(range(14), 5))):
+        for c in (range(14) if th else sorted(rng.sample(range(14), 2))):
             s2.append((o, [P(crash=c), P(ow=1), P()]))
     s2 += [((0, 0, 0), [P(), O(0, 0, 1), P(ow=1)]), ((0, 0, 0), [P(), P(ow=1), O(1, 0, 1), P(ow=1, crash=6), P(ow=1)])]
     seqs["np21w2c"] += [((0, 0, 1), [P(), P(ow=1)]), ((0, 0, 1), [P(crash=5), P(ow=1), P()])]
@@ -1192,29 +1332,33 @@ def run(ctx):
     objs = []
     try:
         ok_cfgs = []
-        for cfg in CONFIGS:
-            try:
-                exp = build_reference(base, cfg)
-                (base / cfg / "exp.json").write_text(json.dumps(exp))
+        # the fault-free reference conversions run the implementation too: in child processes
+        refs = isolated_map(reference_job, [(str(base), cfg) for cfg in CONFIGS], timeout=180)
+        for cfg, (tag, val) in zip(CONFIGS, refs):
+            case = {"cfg": cfg, "runs": [mkrun(post=1, dele=0, comp=1)]}
+            if tag == "ok" and val[0] == "ok":
                 ok_cfgs.append(cfg)
-                if cfg == "np24s4w2":
-                    ctx.measurements["sync_copy_of_other_shanks_is_verified"] = measure_sync_copy(base, cfg, exp)
-            except AssertionError as e:
-                ctx.fail("fault-free conversion is not a valid conversion: %s" % e,
-                         {"cfg": cfg, "runs": [mkrun()]}, {"clause": "reference"})
-            except Exception as e:
-                ctx.fail("fault-free conversion raised %r" % (e,), {"cfg": cfg, "runs": [mkrun()]},
-                         {"clause": "reference"})
+                if val[1] is not None:
+                    ctx.measurements["sync_copy_of_other_shanks_is_verified"] = val[1]
+            elif tag == "ok" and val[0] == "assert":
+                ctx.fail("fault-free conversion is not a valid conversion: %s" % val[1], case, {"clause": "reference"})
+            elif tag == "ok":
+                ctx.fail("fault-free conversion raised %s" % val[1], case, {"clause": "reference"})
+            elif tag == "hang":
+                ctx.fail("fault-free conversion does not terminate (no result after 180 s)", case,
+                         {"clause": "reference_hang"})
+            else:
+                ctx.fail("fault-free conversion killed the interpreter (%s)" % val, case,
+                         {"clause": "reference_died"})
         tasks = [t for t in make_tasks(ctx, base) if t["cfg"] in ok_cfgs]
-        mpc = multiprocessing.get_context("fork")
-        with ProcessPoolExecutor(max_workers=5, mp_context=mpc) as ex:
-            for cfg, out in ex.map(worker, tasks, chunksize=1):
-                if isinstance(out, tuple) and out[0] == "object":
-                    for opts, calls, obs in out[1]:
-                        objs.append((cfg, opts, calls, obs))
-                    continue
-                for runs, obs in out:
-                    hists.append((cfg, runs, obs))
+        for task, res in run_tasks(ctx, tasks):
+            cfg, out = res
+            if isinstance(out, tuple) and out[0] == "object":
+                for opts, calls, obs in out[1]:
+                    objs.append((cfg, opts, calls, obs))
+                continue
+            for runs, obs in out:
+                hists.append((cfg, runs, obs))
         init_states = {}
         for cfg in ok_cfgs:
             exp = {int(k): v for k, v in json.loads((base / cfg / "exp.json").read_text()).items()}
